@@ -38,8 +38,10 @@ example : changedValues { fields := [(str "changed", str "player"), (str "x", st
 
 /-- **byte level, all runs** -/
 theorem C04_events_from_stream (s0 s : St) (D : Bytes) (h0 : AfterGreeting s0) (hr : Run s0 s D) :
-    ∃ rs, (∀ q, Decodes .initial (D ++ q) rs (future s q)) ∧ Attr rs (responses s.obs) (eventsOf s.obs) :=
-  (run_decodes s0 s D h0 hr).2
+    ∃ cs : List (Consumer × Builder.Response),
+      (∀ q, Decodes .initial (D ++ q) (cs.map (·.2)) (future s q)) ∧ Attr cs (responses s.obs) (eventsOf s.obs) := by
+  obtain ⟨cs, h1, h2, _⟩ := (run_decodes s0 s D h0 hr).2
+  exact ⟨cs, h1, h2⟩
 
 /-- dropping the live receive future because a request arrived changes nothing about what the
 connection will decode, and delivers nothing (this is where the unfixed code lost events) -/
@@ -80,11 +82,11 @@ def k3State : St :=
 theorem C04_resume_witness :
     (step k3State false).map (fun s => (s.pc, s.obs)) =
       some (.cancelWait { id := 1, bytes := str "ping\n" } (.inProgress { fields := [(str "changed", str "options")] }),
-            [.wrote NOIDLE]) := by decide +kernel
+            [.wrote NOIDLE .noidle]) := by decide +kernel
 
 /-- ... and when the rest of the reply (`OK`) arrives, the event is delivered -/
 theorem C04_resume_event :
     ((step k3State false).bind fun s => step { s with avail := str "OK\n" } false).map (fun s => s.obs) =
-      some [.wrote NOIDLE, .event (str "options"), .wrote (str "ping\n")] := by decide +kernel
+      some [.wrote NOIDLE .noidle, .event (str "options"), .wrote (str "ping\n") (.request 1)] := by decide +kernel
 
 end Mpd.C04
